@@ -204,3 +204,376 @@ theorem emitE_op (e : Expr) (b : Bool) :
   | bin op l r => cases op <;> simp [emitE, I, parenUnder, wrap, Ctx.isOp]
 
 end Pycel.Formula
+
+namespace Pycel.Formula
+
+theorem errText_unescape (e : Err) : pyUnescape (escBody true (errText e)) = some (errText e) := by
+  cases e <;> decide
+
+theorem num100_ok : (pyNumValue? ['1', '0', '0']).isSome = true := by decide
+
+/-- primary parse of an operand -/
+theorem primary_operand (o : Operand) (ho : o.emittable) (n : Nat) (rest : List PyTok)
+    (hn : 4 * (emitOperand true o).length ≤ n) (hr : okNext rest) :
+    pPrimary n (emitOperand true o ++ rest) = some (toPyOperand o, rest) := by
+  cases o with
+  | logical b =>
+    obtain ⟨m, rfl⟩ : ∃ m, n = m + 1 := ⟨n - 1, by simp [emitOperand] at hn; omega⟩
+    cases rest with
+    | nil => simp [emitOperand, toPyOperand, pPrimary]
+    | cons t r => cases t <;> simp_all [emitOperand, toPyOperand, pPrimary, okNext]
+  | empty =>
+    obtain ⟨m, rfl⟩ : ∃ m, n = m + 1 := ⟨n - 1, by simp [emitOperand] at hn; omega⟩
+    cases rest with
+    | nil => simp [emitOperand, toPyOperand, pPrimary]
+    | cons t r => cases t <;> simp_all [emitOperand, toPyOperand, pPrimary, okNext]
+  | number t =>
+    obtain ⟨m, rfl⟩ : ∃ m, n = m + 1 := ⟨n - 1, by simp [emitOperand] at hn; omega⟩
+    simp only [Operand.emittable] at ho
+    simp [emitOperand, toPyOperand, pPrimary, ho]
+  | error e =>
+    obtain ⟨m, rfl⟩ : ∃ m, n = m + 1 := ⟨n - 1, by simp [emitOperand] at hn; omega⟩
+    cases rest with
+    | nil => simp [emitOperand, toPyOperand, pPrimary, errText_unescape]
+    | cons t r => cases t <;> simp_all [emitOperand, toPyOperand, pPrimary, okNext, errText_unescape]
+  | text raw =>
+    have hl : (emitOperand true (.text raw)).length = 1 := by simp only [emitOperand]; split <;> rfl
+    obtain ⟨m, rfl⟩ : ∃ m, n = m + 1 := ⟨n - 1, by omega⟩
+    obtain ⟨s, rfl⟩ := ho
+    have hb : pyUnescape (if (quoteText s).length > 2 then escBody true (stripQuotes (quoteText s)) else stripQuotes (quoteText s))
+        = some (undouble (stripQuotes (quoteText s))) := by
+      rw [stripQuotes_quoteText, undouble_dbl]
+      split
+      · rw [escBody_dbl, pyUnescape_pyEsc]
+      · rename_i h
+        have : s = [] := by
+          cases s with
+          | nil => rfl
+          | cons c r => exfalso; apply h; simp [quoteText, dbl]; split <;> simp
+        subst this; rfl
+    have he : emitOperand true (.text (quoteText s)) =
+        [.str (if (quoteText s).length > 2 then escBody true (stripQuotes (quoteText s)) else stripQuotes (quoteText s))] := by
+      simp only [emitOperand]; split <;> rfl
+    rw [he]
+    cases rest with
+    | nil => simp [toPyOperand, pPrimary, hb]
+    | cons t r => cases t <;> simp_all [toPyOperand, pPrimary, okNext]
+  | range t =>
+    obtain ⟨m, rfl⟩ : ∃ m, n = m + 4 := ⟨n - 4, by simp [emitOperand] at hn; omega⟩
+    simp only [Operand.emittable] at ho
+    simp only [emitOperand, toPyOperand, List.cons_append, List.nil_append]
+    simp only [pPrimary, pItems, pExpr, pLoop, ho, Option.map, Option.bind]
+
+
+/-! ## the round trip -/
+
+def startTok : PyTok → Bool
+  | .lpar | .name _ | .num _ | .str _ => true
+  | .op o => o == .sub
+  | _ => false
+
+def headOk (ts : List PyTok) : Prop := ∃ t r, ts = t :: r ∧ startTok t = true
+
+theorem headOk_append {a : List PyTok} (h : headOk a) (b : List PyTok) : headOk (a ++ b) := by
+  obtain ⟨t, r, rfl, ht⟩ := h
+  exact ⟨t, r ++ b, rfl, ht⟩
+
+theorem headOk_pos {a : List PyTok} (h : headOk a) : 0 < a.length := by
+  obtain ⟨t, r, rfl, _⟩ := h; simp
+
+theorem pItems_head (n : Nat) {ts : List PyTok} (h : headOk ts) :
+    pItems (n + 1) ts = (pExpr n 0 ts).bind fun (x, r) =>
+        match r with
+        | .rpar :: rest => some (([x], false), rest)
+        | .comma :: r' => (pItems n r').map fun (xs, rest) => ((x :: xs.1, true), rest)
+        | _ => none := by
+  obtain ⟨t, r, rfl, ht⟩ := h
+  cases t <;> first | rfl | simp [startTok] at ht
+
+def Inner (e : Expr) : Prop :=
+  ∀ n rest, 4 * (I e).length + 1 ≤ n → closeNext rest → pExpr n 0 (I e ++ rest) = some (toPy e, rest)
+
+def Primary (e : Expr) : Prop :=
+  ∀ n rest, 4 * (I e).length ≤ n → okNext rest → pPrimary n (I e ++ rest) = some (toPy e, rest)
+
+def isNeg : Expr → Bool
+  | .neg _ => true
+  | _ => false
+
+def Prefix (e : Expr) : Prop :=
+  ∀ (b : Bool) n min rest, 4 * (emitE true (.opChild b) e).length ≤ n → okNext rest →
+    (isNeg e = true → b = false → stops 4 rest) →
+    pExpr (n + 1) min (emitE true (.opChild b) e ++ rest) = pLoop n min (toPy e) rest
+
+def Items (args : List Expr) : Prop :=
+  ∀ n rest, 4 * (emitArgs true args).length + 2 ≤ n →
+    ∃ flag, pItems n (emitArgs true args ++ .rpar :: rest) = some ((toPyList args, flag), rest)
+
+/-- parenthesised form from the inner form -/
+theorem prefix_paren {e : Expr} (hi : Inner e) (hh : headOk (I e)) (n min : Nat) (rest : List PyTok)
+    (hn : 4 * ((I e).length + 2) ≤ n) :
+    pExpr (n + 1) min (.lpar :: (I e ++ .rpar :: rest)) = pLoop n min (toPy e) rest := by
+  obtain ⟨m, rfl⟩ : ∃ m, n = m + 2 := ⟨n - 2, by omega⟩
+  rw [pExpr_prim _ _ _ (by simp)]
+  have h1 : pItems (m + 1) (I e ++ .rpar :: rest) = some (([toPy e], false), rest) := by
+    rw [pItems_head _ (headOk_append hh _), hi m (.rpar :: rest) (by omega) trivial]
+    rfl
+  simp only [pPrimary, h1, Option.map, Option.bind]
+
+theorem prefix_of_primary {e : Expr} (hp : Primary e) (hh : headOk (I e)) (hs : (I e).head? ≠ some (.op .sub))
+    (hpar : ∀ b, parenUnder e b = false) : Prefix e := by
+  intro b n min rest hn ho _
+  rw [emitE_op, hpar b] at hn ⊢
+  simp only [Bool.false_eq_true, if_false] at hn ⊢
+  obtain ⟨t, r, hI, _⟩ := hh
+  rw [hI] at hs
+  rw [hI, List.cons_append, pExpr_prim _ _ _ (by simpa using hs), ← List.cons_append, ← hI, hp n rest hn ho]
+  rfl
+
+theorem inner_of_primary {e : Expr} (hp : Primary e) (hh : headOk (I e)) (hs : (I e).head? ≠ some (.op .sub)) : Inner e := by
+  intro n rest hn hc
+  obtain ⟨m, rfl⟩ : ∃ m, n = m + 2 := ⟨n - 2, by have := headOk_pos hh; omega⟩
+  obtain ⟨t, r, hI, _⟩ := hh
+  rw [hI] at hs
+  rw [hI, List.cons_append, pExpr_prim _ _ _ (by simpa using hs), ← List.cons_append, ← hI, hp (m + 1) rest (by omega) (closeNext_ok hc)]
+  simp only [Option.bind]
+  exact pLoop_stop m 0 _ (closeNext_ok hc) (closeNext_stops hc 0)
+
+theorem pyOp_level_lt (op : InOp) (ha : op.arith = true) (hp : op ≠ .pow) : op.pyOp.level < 4 := by
+  cases op <;> simp_all [InOp.arith, InOp.pyOp, PyOp.level]
+
+theorem headOk_op {e : Expr} (hh : headOk (I e)) (b : Bool) : headOk (emitE true (.opChild b) e) := by
+  rw [emitE_op]; split
+  · exact ⟨.lpar, _, rfl, rfl⟩
+  · exact hh
+
+theorem pLoop_pow (n : Nat) (lhs : PyExpr) (rest : List PyTok) :
+    pLoop (n + 1) 0 lhs (.op .pow :: rest) = (pExpr n 4 rest).bind fun (rhs, r) => pLoop n 0 (.bin .pow lhs rhs) r := by
+  simp [pLoop]
+
+theorem pLoop_cmp (n : Nat) (lhs rhs : PyExpr) (o : PyOp) (h0 : o.level = 0) (rest r : List PyTok)
+    (h : pExpr n 1 rest = some (rhs, r)) (hc : closeNext r) :
+    pLoop (n + 1) 0 lhs (.op o :: rest) = some (.bin o lhs rhs, r) := by
+  have : o ≠ .pow := by intro h; subst h; simp [PyOp.level] at h0
+  cases r with
+  | nil => simp [pLoop, h0, this, h]
+  | cons t r' =>
+    cases t with
+    | rpar => simp [pLoop, h0, this, h]
+    | comma => simp [pLoop, h0, this, h]
+    | _ => exact absurd hc (by simp [closeNext])
+
+theorem pLoop_arith (n : Nat) (lhs : PyExpr) (o : PyOp) (h0 : o.level ≠ 0) (hp : o ≠ .pow) (rest : List PyTok) :
+    pLoop (n + 1) 0 lhs (.op o :: rest) = (pExpr n (o.level + 1) rest).bind fun (rhs, r) => pLoop n 0 (.bin o lhs rhs) r := by
+  simp [pLoop, h0, hp]
+
+/-- the loop on `op r` after a parsed left operand -/
+theorem loop_bin {r : Expr} (hr : Prefix r) (hh : headOk (I r)) (op : InOp) (ha : op.arith = true) (n : Nat) (lhs : PyExpr)
+    (rest : List PyTok) (hn : 4 * (emitE true (.opChild false) r).length + 2 ≤ n) (hc : closeNext rest) :
+    pLoop n 0 lhs (.op op.pyOp :: (emitE true (.opChild false) r ++ rest)) = some (.bin op.pyOp lhs (toPy r), rest) := by
+  obtain ⟨m, rfl⟩ : ∃ m, n = m + 3 := ⟨n - 3, by have := headOk_pos (headOk_op hh false); omega⟩
+  have hR : ∀ min, pExpr (m + 2) min (emitE true (.opChild false) r ++ rest) = some (toPy r, rest) := by
+    intro min
+    rw [hr false (m + 1) min rest (by omega) (closeNext_ok hc) (fun _ _ => closeNext_stops hc 4)]
+    exact pLoop_stop m min _ (closeNext_ok hc) (closeNext_stops hc min)
+  have hS : ∀ x, pLoop (m + 2) 0 x rest = some (x, rest) :=
+    fun x => pLoop_stop (m + 1) 0 x (closeNext_ok hc) (closeNext_stops hc 0)
+  by_cases hpow : op = .pow
+  · subst hpow
+    simp only [InOp.pyOp]
+    rw [pLoop_pow, hR]; simp only [Option.bind]; exact hS _
+  by_cases hcmp : op.pyOp.level = 0
+  · exact pLoop_cmp _ _ _ _ hcmp _ _ (hR 1) hc
+  · have hp : op.pyOp ≠ .pow := by cases op <;> simp_all [InOp.pyOp, InOp.arith]
+    rw [pLoop_arith _ _ _ hcmp hp, hR]; simp only [Option.bind]; exact hS _
+
+theorem I_operand (o : Operand) : I (.operand o) = emitOperand true o := by simp [I, emitE]
+
+theorem I_neg (e : Expr) : I (.neg e) = .op .sub :: emitE true (.opChild false) e := by simp [I, emitE]
+
+theorem I_pct (e : Expr) : I (.pct e) = emitE true (.opChild false) e ++ [.op .div, .num ['1', '0', '0']] := by
+  simp [I, emitE, wrap, Ctx.isOp]
+
+theorem I_bin (op : InOp) (ha : op.arith = true) (l r : Expr) :
+    I (.bin op l r) = emitE true (.opChild (op = .pow)) l ++ .op op.pyOp :: emitE true (.opChild false) r := by
+  cases op <;> simp_all [I, emitE, wrap, Ctx.isOp, InOp.arith]
+
+theorem headOk_operand (o : Operand) : headOk (emitOperand true o) ∧ (emitOperand true o).head? ≠ some (.op .sub) := by
+  cases o with
+  | text raw => simp only [emitOperand]; split <;> exact ⟨⟨_, _, rfl, rfl⟩, by simp⟩
+  | _ => exact ⟨⟨_, _, rfl, rfl⟩, by simp [emitOperand]⟩
+
+/-- shape of the emission of a function call -/
+theorem I_func (name : List Char) (args : List Expr) (hp : plainFn name) :
+    (∃ s, I (.func name args) = [.name s] ∧ toPy (.func name args) = .name s) ∨
+    (I (.func name args) = .name (pyFuncName name) :: .lpar :: emitArgs true args ++ [.rpar] ∧
+      toPy (.func name args) = .call (pyFuncName name) (toPyList args)) := by
+  obtain ⟨h1, h2⟩ := hp
+  by_cases a : pyFuncBase name = nmPi
+  · left; exact ⟨nmPi, by simp [I, emitE, a], by simp [toPy, a]⟩
+  by_cases b : pyFuncBase name = ['t', 'r', 'u', 'e']
+  · left; exact ⟨nmTrue, by simp [I, emitE, b, nmPi], by simp [toPy, b, nmPi]⟩
+  by_cases c : pyFuncBase name = ['f', 'a', 'l', 's', 'e']
+  · left; exact ⟨nmFalse, by simp [I, emitE, c, nmPi], by simp [toPy, c, nmPi]⟩
+  right
+  exact ⟨by simp [I, emitE, a, b, c, h1, h2], by simp [toPy, a, b, c, h1, h2]⟩
+
+theorem primary_name (s : List Char) (n : Nat) (rest : List PyTok) (hr : okNext rest) :
+    pPrimary (n + 1) (.name s :: rest) = some (.name s, rest) := by
+  cases rest with
+  | nil => simp [pPrimary]
+  | cons t r => cases t <;> simp_all [pPrimary, okNext]
+
+theorem headOk_I : ∀ (e : Expr), e.emittable → headOk (I e)
+  | .operand o, _ => by rw [I_operand]; exact (headOk_operand o).1
+  | .neg e, _ => by rw [I_neg]; exact ⟨_, _, rfl, rfl⟩
+  | .pct e, h => by rw [I_pct]; exact headOk_append (headOk_op (headOk_I e h) false) _
+  | .bin op l r, h => by rw [I_bin op h.1]; exact headOk_append (headOk_op (headOk_I l h.2.1) _) _
+  | .func name args, h => by
+    rcases I_func name args h.1 with ⟨s, hs, _⟩ | ⟨hs, _⟩ <;> rw [hs] <;> exact ⟨_, _, rfl, rfl⟩
+
+mutual
+theorem emit_main : ∀ (e : Expr), e.emittable → Inner e ∧ Prefix e
+  | .operand o, h => by
+    have hp : Primary (.operand o) := by
+      intro n rest hn hr
+      rw [I_operand] at hn ⊢
+      exact primary_operand o h n rest hn hr
+    have hh := headOk_operand o
+    rw [← I_operand] at hh
+    exact ⟨inner_of_primary hp hh.1 hh.2, prefix_of_primary hp hh.1 hh.2 (fun _ => rfl)⟩
+  | .func name args, h => by
+    have hit := emit_items args h.2
+    have hp : Primary (.func name args) := by
+      intro n rest hn hr
+      rcases I_func name args h.1 with ⟨s, hs, ht⟩ | ⟨hs, ht⟩
+      · rw [hs] at hn ⊢; rw [ht]
+        obtain ⟨m, rfl⟩ : ∃ m, n = m + 1 := ⟨n - 1, by simp at hn; omega⟩
+        exact primary_name s m rest hr
+      · rw [hs] at hn ⊢; rw [ht]
+        obtain ⟨m, rfl⟩ : ∃ m, n = m + 1 := ⟨n - 1, by simp at hn; omega⟩
+        obtain ⟨flag, hf⟩ := hit m rest (by simp at hn; omega)
+        simp only [List.cons_append, List.append_assoc, List.nil_append, pPrimary, hf, Option.map]
+    have hh := headOk_I (.func name args) h
+    have hs : (I (.func name args)).head? ≠ some (.op .sub) := by
+      rcases I_func name args h.1 with ⟨s, hs, _⟩ | ⟨hs, _⟩ <;> rw [hs] <;> simp
+    exact ⟨inner_of_primary hp hh hs, prefix_of_primary hp hh hs (fun _ => rfl)⟩
+  | .neg e, h => by
+    have he : e.emittable := h
+    obtain ⟨_, hpre⟩ := emit_main e he
+    have hhe := headOk_op (headOk_I e he) false
+    have hin : Inner (.neg e) := by
+      intro n rest hn hc
+      rw [I_neg] at hn ⊢
+      obtain ⟨m, rfl⟩ : ∃ m, n = m + 3 := ⟨n - 3, by have := headOk_pos hhe; simp at hn; omega⟩
+      rw [List.cons_append, pExpr_sub, hpre false (m + 1) 4 rest (by simp at hn; omega) (closeNext_ok hc) (fun _ _ => closeNext_stops hc 4)]
+      rw [pLoop_stop m 4 _ (closeNext_ok hc) (closeNext_stops hc 4)]
+      simp only [Option.bind, toPy]
+      exact pLoop_stop (m + 1) 0 _ (closeNext_ok hc) (closeNext_stops hc 0)
+    refine ⟨hin, ?_⟩
+    intro b n min rest hn ho hst
+    cases b with
+    | true =>
+      have e1 : emitE true (.opChild true) (.neg e) = .lpar :: I (.neg e) ++ [.rpar] := by rw [emitE_op]; rfl
+      rw [e1] at hn ⊢
+      have := prefix_paren hin (headOk_I (.neg e) h) n min rest (by simp at hn ⊢; omega)
+      simpa [List.append_assoc] using this
+    | false =>
+      have e1 : emitE true (.opChild false) (.neg e) = I (.neg e) := by rw [emitE_op]; rfl
+      rw [e1, I_neg] at hn ⊢
+      have hs4 := hst rfl rfl
+      obtain ⟨m, rfl⟩ : ∃ m, n = m + 2 := ⟨n - 2, by have := headOk_pos hhe; simp at hn; omega⟩
+      rw [List.cons_append, pExpr_sub, hpre false (m + 1) 4 rest (by simp at hn; omega) ho (fun _ _ => hs4)]
+      rw [pLoop_stop m 4 _ ho hs4]
+      simp only [Option.bind, toPy]
+  | .pct e, h => by
+    have he : e.emittable := h
+    obtain ⟨_, hpre⟩ := emit_main e he
+    have hhe := headOk_op (headOk_I e he) false
+    have hin : Inner (.pct e) := by
+      intro n rest hn hc
+      rw [I_pct] at hn ⊢
+      obtain ⟨m, rfl⟩ : ∃ m, n = m + 4 := ⟨n - 4, by have := headOk_pos hhe; simp at hn; omega⟩
+      rw [List.append_assoc, hpre false (m + 3) 0 _ (by simp at hn; omega) (by simp [okNext]) (fun _ _ => by simp [stops, PyOp.level])]
+      have h100 : pExpr (m + 2) 4 (.num ['1', '0', '0'] :: rest) = some (.num ['1', '0', '0'], rest) := by
+        rw [pExpr_prim _ _ _ (by simp)]
+        simp only [pPrimary, num100_ok, if_true, Option.bind]
+        exact pLoop_stop m 4 _ (closeNext_ok hc) (closeNext_stops hc 4)
+      simp only [List.cons_append, List.nil_append]
+      rw [pLoop_arith _ _ _ (by simp [PyOp.level]) (by simp)]
+      simp only [PyOp.level]
+      rw [h100]
+      simp only [Option.bind, toPy]
+      exact pLoop_stop (m + 1) 0 _ (closeNext_ok hc) (closeNext_stops hc 0)
+    refine ⟨hin, ?_⟩
+    intro b n min rest hn ho _
+    have e1 : emitE true (.opChild b) (.pct e) = .lpar :: I (.pct e) ++ [.rpar] := by rw [emitE_op]; rfl
+    rw [e1] at hn ⊢
+    have := prefix_paren hin (headOk_I (.pct e) h) n min rest (by simp at hn ⊢; omega)
+    simpa [List.append_assoc] using this
+  | .bin op l r, h => by
+    obtain ⟨ha, hl, hr⟩ := h
+    obtain ⟨_, hprel⟩ := emit_main l hl
+    obtain ⟨_, hprer⟩ := emit_main r hr
+    have hhl := headOk_op (headOk_I l hl) (op = .pow)
+    have hhr := headOk_op (headOk_I r hr) false
+    have hin : Inner (.bin op l r) := by
+      intro n rest hn hc
+      rw [I_bin op ha] at hn ⊢
+      obtain ⟨m, rfl⟩ : ∃ m, n = m + 1 := ⟨n - 1, by omega⟩
+      have hlen : (emitE true (.opChild (op = .pow)) l ++ .op op.pyOp :: emitE true (.opChild false) r).length =
+          (emitE true (.opChild (op = .pow)) l).length + 1 + (emitE true (.opChild false) r).length := by
+        simp; omega
+      rw [hlen] at hn
+      have hpl := headOk_pos hhl
+      rw [List.append_assoc, hprel (op = .pow) m 0 _ (by omega) (by simp [okNext]) (by
+        intro _ hb
+        have hp : op ≠ .pow := by simpa using hb
+        have := pyOp_level_lt op ha hp
+        simpa [stops] using this)]
+      simp only [List.cons_append]
+      have := loop_bin hprer (headOk_I r hr) op ha m (toPy l) rest (by omega) hc
+      rw [this]
+      cases op <;> simp_all [toPy, InOp.arith]
+    refine ⟨hin, ?_⟩
+    intro b n min rest hn ho _
+    have e1 : emitE true (.opChild b) (.bin op l r) = .lpar :: I (.bin op l r) ++ [.rpar] := by rw [emitE_op]; rfl
+    rw [e1] at hn ⊢
+    have := prefix_paren hin (headOk_I (.bin op l r) ⟨ha, hl, hr⟩) n min rest (by simp at hn ⊢; omega)
+    simpa [List.append_assoc] using this
+theorem emit_items : ∀ (args : List Expr), emittableList args → Items args
+  | [], _ => by
+    intro n rest hn
+    obtain ⟨m, rfl⟩ : ∃ m, n = m + 1 := ⟨n - 1, by omega⟩
+    exact ⟨false, by simp [emitArgs, toPyList, pItems]⟩
+  | a :: as, h => by
+    obtain ⟨ha, has⟩ := h
+    obtain ⟨hin, _⟩ := emit_main a ha
+    have hh := headOk_I a ha
+    intro n rest hn
+    simp only [emitArgs, emitE_funcArg] at hn ⊢
+    obtain ⟨m, rfl⟩ : ∃ m, n = m + 1 := ⟨n - 1, by omega⟩
+    rw [List.append_assoc, pItems_head _ (headOk_append hh _)]
+    cases as with
+    | nil =>
+      simp only [emitRest, List.nil_append]
+      rw [hin m (.rpar :: rest) (by simp at hn; omega) trivial]
+      exact ⟨false, rfl⟩
+    | cons a2 as' =>
+      have e2 : emitRest true (a2 :: as') = .comma :: emitArgs true (a2 :: as') := by simp [emitRest, emitArgs]
+      rw [e2] at hn ⊢
+      rw [List.cons_append, hin m (.comma :: (emitArgs true (a2 :: as') ++ .rpar :: rest)) (by simp at hn; omega) trivial]
+      obtain ⟨flag, hf⟩ := emit_items (a2 :: as') has m rest (by simp at hn ⊢; omega)
+      refine ⟨true, ?_⟩
+      simp only [Option.bind, hf, Option.map, toPyList]
+end
+
+/-- the emitted code parses, under Python's grammar, to the Python meaning of the tree -/
+theorem pyParse_emit (e : Expr) (h : e.emittable) : pyParse (emit e) = some (toPy e) := by
+  have := (emit_main e h).1 (pyFuel (emit e)) [] (by simp [pyFuel, emit, I]) trivial
+  simp only [List.append_nil] at this
+  unfold pyParse
+  show (match pExpr (pyFuel (emit e)) 0 (I e) with | some (e, []) => some e | _ => none) = _
+  rw [this]
+
+end Pycel.Formula
